@@ -332,7 +332,7 @@ def fold_obligations(mir):
     return out
 
 
-def run(thorough=False):
+def run(thorough=False, prop="C13"):
     try:
         mir, secs, cached = util.get()
         names = [n for n in mir.index if re.match(FN, n)]
@@ -350,7 +350,7 @@ def run(thorough=False):
         paths = core.Executor(body, stop_blocks=tuple(heads), max_depth=500, max_paths=20000).run(outer)
         tagname = {v: k for k, v in enum_values("src/types.rs", "HeapCellValueTag").items()}
     except Exception as e:  # noqa
-        log("  mirsmt C13: cannot analyse (%s)" % e)
+        log("  mirsmt %s: cannot analyse (%s)" % (prop, e))
         return {"exit": EXIT_INCONCLUSIVE, "mirsmt_error": str(e)}
 
     queries, meta, structural = [], [], []
@@ -560,20 +560,20 @@ def run(thorough=False):
             unknown.append(s)
         res["samples"].append({"query": s["obligation"], "answer": {True: "holds", False: "fails", None: "not understood"}[s["ok"]],
                                "note": s.get("why", "")})
-    log("  mirsmt C13: %d paths through ParallelHeapIter::next; %d obligations (%d solver queries), "
+    log("  mirsmt %s: %d paths through ParallelHeapIter::next; %d obligations (%d solver queries), "
         "%d hold, %d violated, %d not understood (z3 %.2fs)" % (
-            len(paths), len(queries) + len(structural), len(queries), res["distinct_nontrivial"],
+            prop, len(paths), len(queries) + len(structural), len(queries), res["distinct_nontrivial"],
             len(viol), len(unknown), br["z3_s"]))
     res["exit"] = EXIT_OK
     if viol:
         res["mirsmt_violations"] = viol
         from .. import prolog
-        rp = prolog.replay_term_order(viol)
+        rp = prolog.replay_term_order(viol, prop)
         if rp["reproduced"]:
-            log("VIOLATION property=C13 replay=%s" % rp["path"])
+            log("VIOLATION property=%s replay=%s" % (prop, rp["path"]))
             res["exit"] = EXIT_VIOLATION
         else:
-            log("  mirsmt C13: the compare/3 replay set answers as specified (%s) -> inconclusive" % rp.get("why"))
+            log("  mirsmt %s: the compare/3 replay set answers as specified (%s) -> inconclusive" % (prop, rp.get("why")))
             res["exit"] = EXIT_INCONCLUSIVE
     elif unknown:
         res["mirsmt_not_understood"] = unknown
